@@ -215,14 +215,24 @@ class Capability:
     @classmethod
     def klass(cls, what: int) -> Type[Capability]:
         if what in cls.registered_capability:
-            kls: Type[Capability] = cls.registered_capability[what]
-            kls.ID = what
-            return kls
+            # The code is NOT written on the class any more: RouteRefresh and MultiSession are registered under
+            # two codes (RFC and Cisco) and print their variant from it, so decoding one peer's OPEN changed what
+            # an OPEN already decoded for another peer said. unpack() records it on the instance, see code().
+            return cls.registered_capability[what]
         if cls.unknown_capability:
             return cls.unknown_capability
         raise Notify(2, 4, 'can not handle capability {}'.format(what))
 
     @classmethod
     def unpack(cls, capability: CapabilityCode, capabilities: Any, data: Buffer) -> Capability:
-        instance: Capability = capabilities.get(capability, Capability.klass(capability)())
-        return cls.klass(capability).unpack_capability(instance, data, capability)
+        kls = cls.klass(capability)
+        instance: Capability | None = capabilities.get(capability)
+        if instance is None:
+            instance = kls()
+            if capability in cls.registered_capability:
+                instance._received_code = int(capability)
+        return kls.unpack_capability(instance, data, capability)
+
+    def code(self) -> int:
+        """The code this capability was received under, the code of its class when it was built locally."""
+        return int(getattr(self, '_received_code', self.ID))
